@@ -570,7 +570,7 @@ def r124(rep: Report, ctx: Ctx, sql) -> None:
 
 
 def r125(rep: Report, ctx: Ctx, sql) -> None:
-    rep.rule("R12.5", "child links and span fields", 11)
+    rep.rule("R12.5", "child links and span fields", 12)
     sch = sql.schema
     rel = sch.relationships.get("nodes", {}).get("children")
     if rel is None:
@@ -594,6 +594,19 @@ def r125(rep: Report, ctx: Ctx, sql) -> None:
            rel.get("secondary") == "NODE_ASSOCIATION",
            detail=f"secondary={rel.get('secondary')}")
     rep.obligations[-1].func = "NodeModel.children"
+    # the joins above compare bare span ids: a link (parent_id, child_id)
+    # denotes ONE stored span on each side only if the span id is a key of
+    # the span table on its own
+    uq = "event_id" in sch.unique.get("nodes", set())
+    rep.ob("R12.5", "the join column is a key of the span table on its own",
+           uq, detail=f"unique columns of nodes: "
+           f"{sorted(sch.unique.get('nodes', set()))}"
+           + ("" if uq else " -- with a key that is only unique per trace "
+              "a parent lists the spans of OTHER traces that share a child's "
+              "id (child ids repeated, foreign spans linked)"))
+    rep.obligations[-1].func = "NodeModel"
+    rep.obligations[-1].file = "tel2puml/otel_to_pv/data_holders/" \
+        "sql_data_holder/data_model.py"
     conv = ctx.func("SQLDataHolder.node_to_otel_event")
     ctor = [c for c in ast.walk(conv.node) if isinstance(c, ast.Call)
             and call_name(c) == "OTelEvent"]
